@@ -175,6 +175,16 @@ def attr(ctx):
                     obs.append(Ob('SA-ATTR', '%s|%s' % (fi.qual, norm(node)), ok, ctx.loc(fi, node),
                                   '' if ok else 'a file opened with mode %r has no attribute %r (io.%s)' % (mode, node.attr, real.__name__)))
                 continue
+            if isinstance(node.value, ast.Attribute) and isinstance(node.value.value, ast.Name):
+                # x.a.<attr>: narrow x by the enclosing isinstance tests first, then take the type of x.a
+                base = node.value.value
+                bcl = type_classes(ctx.t.expr_type(base, fi))
+                ncl = _narrow(ctx, fi, node, base.id, bcl) if bcl else bcl
+                if ncl and len(ncl) < len(bcl):
+                    from ..model import mk_union
+                    bt = mk_union([ctx.t.attr_type(c, node.value.attr) for c in ncl])
+                    if bt is None:
+                        continue
             classes = type_classes(bt)
             if not classes or ('any',) in (bt[1] if bt[0] == 'union' else ()):
                 continue
